@@ -286,7 +286,7 @@ _TYPE_TAGS = {'xs:integer': 'i', 'xs:string': 's', 'xs:boolean': 'b', 'xs:decima
 def matches_type(seq, t: str) -> bool:
     """SequenceType matching for the few declared types the generators use (no conversion is modelled:
     programs only pass values that already have the declared type)"""
-    occ = t[-1] if t[-1] in '*?+' else ''
+    occ = t[-1] if t[-1] in '*?+' and not t.startswith('function(') else ''
     base = t[:-1] if occ else t
     if occ == '' and len(seq) != 1 or occ == '?' and len(seq) > 1 or occ == '+' and not seq:
         return False
@@ -294,6 +294,21 @@ def matches_type(seq, t: str) -> bool:
         return True
     if base == 'function(*)':
         return all(is_callable(it) for it in seq)
+    if base.startswith('function('):
+        # function(T1, ..., Tn) as R: only the arity is modelled (generators pass items whose signature fits)
+        depth, commas, inner = 0, 0, ''
+        for ch in base[len('function('):]:
+            if ch == '(':
+                depth += 1
+            elif ch == ')':
+                if depth == 0:
+                    break
+                depth -= 1
+            elif ch == ',' and depth == 0:
+                commas += 1
+            inner += ch
+        n = 0 if not inner.strip() else commas + 1
+        return all(is_callable(it) and arity_of(it) == n for it in seq)
     tags = _TYPE_TAGS[base]
     return all(not is_fn(it) and it[0] in tags for it in seq)
 
@@ -1813,6 +1828,8 @@ def self_test():
     ipc = Interp(default_collation=COLLATION_HTML_ASCII)
     assert canon_seq(ipc.run(['call', 'sort', [mixed, ['empty'], ['inline', ['x'], ['var', 'x']]]])) == strs('_', 'A', 'a', 'b', 'B', 'Z')
     assert canon_seq(ipc.run(['call', 'sort', [mixed, ['str', COLLATION_CODEPOINT]]])) == strs('A', 'B', 'Z', '_', 'a', 'b')
+    assert matches_type([FnItem(2, None)], 'function(xs:string?, xs:double) as xs:string')
+    assert not matches_type([FnItem(3, None)], 'function(item()*, xs:double) as item()*')
     assert render(['arrow', ['int', 2], ['dyn', ['var', 'a'], [['?']]]]) == '(2 => ($a(?))())'
     assert render(['filter', ['var', 'x'], ['int', 1]]) == '$x[1]'
     assert render(['filter', ['int', 3], ['int', 1]]) == '(3)[1]'
